@@ -196,6 +196,18 @@ def c10_oracle(payload):
             msk = gain > -150
             if msk.any() and _mx(np.abs(g4[msk] - gain[msk])) > 1e-6:
                 bad.append('rows 360 degrees apart in azimuth differ by %.3g dB' % _mx(np.abs(g4[msk] - gain[msk])))
+            # a sweep symmetric about azimuth 0 (phi and -phi have the same cosine) and one over a full turn: each row on its own
+            a0 = rng.uniform(20, 75)
+            for az5 in ([-a0, a0, 3], [a0, 360 - 2 * a0, 2], [rng.uniform(0, 80), 90.0, 5]):
+                m.compute_far_field(Angle(*zen), Angle(*az5))
+                e5t = np.array(m.far_field.e_theta); e5p = np.array(m.far_field.e_phi)
+                for a in range(az5[2]):
+                    for z in (2, 5):
+                        th = math.radians(zen[0] + z * zen[1]); ph = math.radians(az5[0] + a * az5[1])
+                        st_, sp_ = _rad_sum(m, th, ph)
+                        if abs(e5t[a][z] - st_) > 1e-4 * emax or abs(e5p[a][z] - sp_) > 1e-4 * emax:
+                            bad.append('far field at (%.4g, %.4g) deg in the azimuth sweep %r is (%r, %r), radiation sum of the currents (%r, %r)' % (
+                                math.degrees(th), math.degrees(ph), az5, e5t[a][z], e5p[a][z], st_, sp_)); break
             def _asym(p):
                 a, b = p.segs[0], p.segs[1]
                 if p.ground.any():
